@@ -531,6 +531,11 @@ REGRESSION = [
     # venom: ternary of a memory type as internal-call argument (pre-SSA invoke-arg copy forwarding followed one definition)
     ("@internal_arg", "Bytes_64", 0, "ifexp_rt"), ("@internal_arg", "String_64", 0, "ifexp_const"), ("@internal_arg", "uint256_2", 0, "ifexp_args"),
     ("@internal_arg", "DynArray_bytes32_4", 0, "ifexp_rt"), ("@internal_two_args", "Bytes_64", 1, "ifexp_args"),
+    # venom: pointer phi of a ternary used in a later block (BasePtrAnalysis fixpoint -> dead store elimination dropped the true arm)
+    ("@store", "Bytes_64", 0, "ifexp_rt"), ("@store", "uint256_2", 0, "ifexp_args"), ("@tstore", "uint256_2", 0, "ifexp_nested"),
+    ("@hashmap_store", "String_64", 0, "ifexp_storage"), ("@for_iter", "arr2", 0, "ifexp_args"),
+    # legacy: indexing into empty(T[n]); index containing a call (risky overlap guard, open)
+    ("@index_arr2", "", 0, "empty"), ("@index_static", "", 0, "staticcall_res"),
 ]
 
 
